@@ -13,7 +13,7 @@ DEFAULTS = dict(
     state_internal=0.3, sm_internal=0.3, completion=0.0, history=0.0, pseudo=0.0,
     deferral=0.0, flags=0.0, blocking=0.0, hierarchy_events=0.0, kleene=0.0,
     scripts=False, outer_rows_on_sub=0.8, policy='default', serialize=False,
-    subs_per_level=(1, 1), action_max=2, row_budget=18, visitable=False,
+    subs_per_level=(1, 1), action_max=2, row_budget=18, visitable=False, terminate_only=False, puml_guards=False,
 )
 
 PROFILES = {
@@ -27,6 +27,11 @@ PROFILES = {
                   state_internal=0.2, sm_internal=0.0, scripts=True, visitable=True),
     'common': dict(depth=(1, 3), regions=(1, 3), completion=0.3, history=0.4, pseudo=0.4, row_budget=11, states_per_region=(2, 3),
                    state_internal=0.3, sm_internal=0.0, flags=0.5, blocking=0.25, deferral=0.4, scripts=True),
+    'frontlang': dict(depth=(1, 1), regions=(1, 3), states_per_region=(2, 3), guard_composite=0.7, guard_none=0.15, action_max=3,
+                      state_internal=0.0, sm_internal=0.0, completion=0.3, flags=0.7, blocking=0.3, terminate_only=True,
+                      internal_row=0.15, puml_guards=True, row_budget=16),
+    'frontlang2': dict(depth=(1, 1), regions=(1, 3), states_per_region=(2, 3), guard_composite=0.7, guard_none=0.15, action_max=3,
+                       state_internal=0.5, sm_internal=0.0, completion=0.3, flags=0.5, internal_row=0.15, row_budget=16),
     'flags': dict(flags=1.0, depth=(1, 3), state_internal=0.0, sm_internal=0.0, scripts=True),
     'policy_after_entry': dict(policy='after_entry', flags=0.7, depth=(1, 3), pseudo=0.3, row_budget=12, state_internal=0.2, sm_internal=0.0, scripts=True),
     'policy_after_action': dict(policy='after_action', flags=0.7, depth=(1, 3), pseudo=0.3, row_budget=12, state_internal=0.2, sm_internal=0.0, scripts=True),
@@ -64,6 +69,15 @@ class Gen:
         if allow_none and x < self.p['guard_none']:
             return None
         if x < self.p['guard_none'] + self.p['guard_composite']:
+            if self.p.get('puml_guards'):
+                from .emit_fe import paren_depth_ok
+                for _ in range(20):
+                    save = self.natom
+                    e = self.expr(2)
+                    if paren_depth_ok(e):
+                        return e
+                    self.natom = save
+                return ['g', self.atom()]
             return self.expr(2)
         return ['g', self.atom()]
 
@@ -76,7 +90,7 @@ class Gen:
         return [k, self.expr(depth - 1), self.expr(depth - 1)]
 
     def actions(self):
-        n = self.r.choice([0, 1, 1, 1, 2][: self.p['action_max'] + 3])
+        n = self.r.choice([0, 1, 1, 1, 2, 3, 2][: self.p['action_max'] + 3])
         out = []
         for _ in range(n):
             out.append(self.nact)
@@ -241,15 +255,16 @@ class Gen:
             if not cand or r.random() < 0.2:
                 continue
             s = r.choice(cand)
-            if r.random() < 0.5:
+            if r.random() < 0.5 or self.p.get('terminate_only'):
                 m['states'][s]['kind'] = 'terminate'
             else:
                 m['states'][s]['kind'] = 'interrupt'
                 m['states'][s]['end_events'] = sorted(r.sample(events, r.choice([1, 1, 2])))
-                # make sure there is a row leaving the interrupt state on an end event
-                ee = m['states'][s]['end_events'][0]
-                if len(m['table']) < MAX_ROWS:
-                    m['table'].append(dict(src=s, ev=ee, tgt=reg[0], guard=None, actions=self.actions()))
+                # make sure there is a row leaving the interrupt state on an end event, and that every end event occurs in
+                # the table (backmp11 favor_compile_time only recognises end-interrupt events that have a row: known finding)
+                for k_, ee in enumerate(m['states'][s]['end_events']):
+                    if k_ == 0 or not any(rw['ev'] == ee for rw in m['table']):
+                        m['table'].append(dict(src=s, ev=ee, tgt=reg[0], guard=None if k_ == 0 else self.guard(), actions=self.actions()))
             # blocking states need no internal table and are no completion sources
             m['states'][s].pop('internal', None)
             m['table'] = [rw for rw in m['table'] if not (rw['src'] == s and rw['ev'] is None)]
